@@ -37,6 +37,14 @@ func lexTokens(text string) []string {
 		case r == '-':
 			out = append(out, "-")
 			i++
+		case unicode.IsDigit(r) || r == '.' && i+1 < len(rs) && unicode.IsDigit(rs[i+1]):
+			// a number: digits and dots only ('0-' is a number and a minus sign)
+			j := i
+			for j < len(rs) && (unicode.IsDigit(rs[j]) || rs[j] == '.') {
+				j++
+			}
+			out = append(out, string(rs[i:j]))
+			i = j
 		case nameish(r):
 			j := i
 			for j < len(rs) && nameish(rs[j]) {
